@@ -232,6 +232,7 @@ class Proto:
             (r"^encode$|streamname::encode$", m_encode2),
             (r"as Into<String>>::into$", m_into),
             (r"<dyn Finish<F> as Finish<F>>::finish$", m_dyn_finish),
+            (r"<FinishImpl as Finish<F>>::finish$", m_dyn_finish),     # the finisher invoked directly, not through the armed Box<dyn Finish>
         ]
 
     def run(self, fn_rx, finisher_some, tag, extra_args=0, by_value=False, havoc=False):
